@@ -341,3 +341,25 @@ PROPS["C10"] = dict(
     rule="cases = (configuration, result array) comparisons against the single-thread run; configurations = thread counts x "
          "schedules x repetitions + the no-OpenMP build; every comparison distinct by (configuration, result name)",
 )
+
+PROPS["C13"] = dict(
+    level="proof",
+    paths=["C"],
+    translators=["cbits.py", "omp.py"],
+    technique="Lean 4 theorems (every shift in the translated C bit helpers has a count < 64; batch arithmetic stays inside the "
+              "row; row/scratch index ranges of distinct iterations are disjoint and inside the block; cross-sector maps are "
+              "only linked for dn <= maxspin) + AddressSanitizer/UBSan build of the same C sources driven over boundary shapes",
+    text="PARTIAL: memory safety of compiled C is not a property of a model. Proved: the index arithmetic of the helpers as "
+         "translated from the headers (no undefined shifts for positions < 64, incl. 2ull << 63), the column batching "
+         "(non-empty, inside [0, lenb), last batch ends at lenb) and the occ[16] bound of make_mapping_each_set (dn <= 2). "
+         "Executed: the C library rebuilt with -fsanitize=address,undefined (OpenMP kept, NDEBUG as shipped) and driven "
+         "through the public API over empty/full shells, one orbital, lenb on both sides of 450 and 900, 9/10/11 beta "
+         "strings, lena = 126, orbital indices 30-33 and 62-63, spin-broken containers; any sanitizer report is a failing "
+         "input; results are compared with the regular build.",
+    note="Lean kernel; the sanitizer run covers executed paths only; int32 index products overflow only for sectors far beyond "
+         "what the sandbox can allocate (not exercised); the C assert `norbs < MAX_ORBS` in zdiagonal_coulomb_apply is off by one "
+         "at norb = 64 but compiled out in the shipped build (noted in DESIGN.md).",
+    design_ref="DESIGN.md §5 C13",
+    rule="cases = result arrays of the boundary-shape battery under the sanitizers (each compared with the regular build); every "
+         "array distinct by name",
+)
